@@ -444,4 +444,8 @@ def run(rep, prog, thorough):
     for plug in (True, False):
         I5, st5, _ = run_sectionfun(prog, 0x5053, plug)
         check_src_consumption(rep, I5, st5, "sectionFun(PS)%s" % ("" if plug else " -P"))
+    # ... and the free-form sections take exactly the bytes the checked reads delivered (a body cut out of the buffer with an
+    # unchecked slice is silently shorter for a truncated log) - rule shared with C04
+    from .c04 import check_sections
+    check_sections(rep, prog)
     rep.note("R5 (every proper prefix of a well-formed PEL is rejected) is derived from R1 + C01.R4 (exact consumption), not re-proved here")
